@@ -191,7 +191,15 @@ func (rd *redisDict) get(key string) (value any, exists bool) {
 }
 
 func (rd *redisDict) pickRandomItems(count, sparseThreshold int) (items []*redisDictItem) {
-	items = make([]*redisDictItem, 0, count)
+	// count comes from the client (repeats allowed): use it only as a bounded allocation hint
+	hint := count
+	if hint > 1024 {
+		hint = 1024
+	}
+	if hint < 0 {
+		hint = 0
+	}
+	items = make([]*redisDictItem, 0, hint)
 
 	// Algorithm that is expensive when sparseness is high; we rely on
 	// the hash function to reduce that possibility.
